@@ -47,7 +47,7 @@ PowB == {I(0), NF(FZero(0)), NF(FZero(1)), I(1), I(2), F(2), I(-2), F(-8), I(3),
          NI(Add(P(53), One)), MaxD, I(4), F(9), R(1, 2), NI(Ten(400)), F(-1), MinSub}
         \cup (IF Q THEN {} ELSE {F(10), I(-1), I(7), FM(0, One, 511), FM(0, One, -537), R(-1, 2), F(5), FM(0, One, 53), F(-3), R(9, 4)})
 PowE == {I(0), NF(FZero(0)), I(1), I(2), I(3), I(-1), I(-2), FM(0, One, -1), FM(1, One, -1), I(10), I(2000), I(-2000), I(1074), I(-1074),
-         F(2), F(-3), R(1, 2), I(64), NI(Ten(400))}
+         F(2), F(-3), R(1, 2), I(64), NI(Ten(400)), I(100), I(308)}
         \cup (IF Q THEN {} ELSE {I(1023), I(1024), I(-1075), I(-1022), F(3), FR(1, 3), I(53), I(308), I(309), I(400), R(-3, 2), F(1024), I(4097)})
 (* min / max *)
 MmSet == {I(1), F(1), I(2), FM(0, FromInt(5), -1), NI(Add(P(53), One)), FM(0, One, 53), NI(P(53)), R(1, 2), FM(0, One, -1), R(2, 1),
@@ -143,8 +143,8 @@ Next ==
 (* well-formedness of everything the specification produces *)
 ResOk ==
   phase = "case" =>
-    /\ res.k \in {"val", "err", "anyfloat", "either"}
-    /\ (res.k \in {"val", "either"} => NumOk(res.v))
+    /\ res.k \in {"val", "err", "anyfloat", "either", "near"}
+    /\ (res.k \in {"val", "either", "near"} => NumOk(res.v))
     /\ (res.k = "either" => NumOk(res.c))
     /\ (res.k = "err" => res.err \in {"zero_divisor", "undefined", "float_overflow", "type_integer"})
     /\ (res.k = "err" /\ res.err = "type_integer" => res.c.t # "i")
